@@ -493,6 +493,11 @@ def run(ck, repo: Repo, tier: str):
                 raise AnalysisError(f"{site}: returned indices `{val.canon()[:100]}` are not searchsorted(cumulative, draws) (unrecognised idiom)")
             C, U = args[0], args[1]
             if not (C.startswith("cumsum(") and C.endswith(")")):
+                # evidence only when the searched array is the stored priorities themselves (possibly sliced / masked), i.e. no cumulative
+                # sum anywhere in it; a cache, an attribute or any other unread value is undecided
+                raw_ok = all(tok_ in ("self", "priority", "mask", "current_len") for tok_ in __import__("re").findall(r"[A-Za-z_][A-Za-z_0-9]*", C))
+                if not raw_ok:
+                    raise AnalysisError(f"{site}: searchsorted searches `{C[:80]}`, whose construction is not read (a cache or derived attribute): unrecognised form")
                 ck.ob("R3-sampler-form", site, f"inverse-cdf:{tag}", False, f"searchsorted({C[:80]}, ...)", "the first argument of searchsorted must be the cumulative sum of the (masked) priorities: searching the raw priorities is not an inverse-CDF draw", loc(mi, f))
                 continue
             P = C[len("cumsum("):-1]
